@@ -254,6 +254,12 @@ func (e *Engine) call(fn *ssa.Function, args []Value, env []Value) Value {
 func (e *Engine) callSSA(fn *ssa.Function, args []Value, env []Value) Value {
 	name := fn.String()
 	if len(fn.Blocks) == 0 {
+		// assembly kernels with a portable Go twin (math/big's addVV / addVV_g, ...)
+		if fn.Pkg != nil {
+			if g := fn.Pkg.Func(fn.Name() + "_g"); g != nil && len(g.Blocks) > 0 {
+				return e.callSSA(g, args, env)
+			}
+		}
 		e.unsupported("function without body: %s", name)
 	}
 	if len(e.stack) > 400 {
